@@ -277,18 +277,27 @@ func (t *Thread) end(args []Value, err error, exception interface{}) {
 		// The close handlers are Lua code: they must run while the thread is
 		// still running and no lock is held (they may use coroutines), and
 		// they may run out of resources, which has to reach the caller.
-		func() {
-			defer func() {
-				if r := recover(); r != nil {
-					if _, terminated := r.(ContextTerminationError); !terminated {
+		for again := true; again; {
+			again = false
+			func() {
+				defer func() {
+					switch r := recover().(type) {
+					case nil:
+					case ContextTerminationError:
+						t.closeStack.truncate(0)
+						exception = r
+					case threadClose:
+						// A handler yielded and the thread was closed while it
+						// was suspended there: that handler is abandoned, the
+						// remaining ones still run.
+						again = true
+					default:
 						panic(r)
 					}
-					t.closeStack.truncate(0)
-					exception = r
-				}
+				}()
+				err = t.cleanupCloseStack(nil, 0, err) // TODO: not nil
 			}()
-			err = t.cleanupCloseStack(nil, 0, err) // TODO: not nil
-		}()
+		}
 	}
 	caller := t.caller
 	t.mux.Lock()
